@@ -91,8 +91,8 @@ Documented(m) ==
       [] m = "empty_subs" -> {"EmptySubscription"}
       [] m = "payload_fmt" -> {"InvalidPayloadFormat"}
 LenientMatches(e, q) ==
-    CASE q.st = "err"  -> SameErr(e.block, q) /\ SameErr(e.async, q)
-      [] q.st = "need" -> e.block.k = "incomplete" /\ e.async.k = "err" /\ e.async.eof
+    CASE q.st = "err"  -> SameErr(e.block, q) /\ SameErr(e.async, q) /\ SameErr(e.async_1, q)
+      [] q.st = "need" -> e.block.k = "incomplete" /\ e.async.k = "err" /\ e.async.eof /\ e.async_1.k = "err" /\ e.async_1.eof
       [] q.st = "ok"   -> TRUE                              \* lenient framing ignores it: not C20's business
 OK20(e) ==
     LET s == StrictParse(e.fam, e.bytes)
@@ -106,6 +106,7 @@ OK20(e) ==
             /\ (e.m \in {"rl_short", "rl_long", "rl_zero"} \/ s.e \in Documented(e.m)
                    \/ PrintT(<<"AMBIGUOUS", e.m, e.site, s.e>>))
             /\ SameErr(e.poll, s)
+            /\ SameErr(e.poll_1, s)                \* ... whatever the delivery: 1-byte reads, a Pending before each, future dropped
             /\ LenientMatches(e, q)
 
 \* ---- C11
@@ -124,6 +125,22 @@ OK11(e) ==
     /\ OkPkt(e.redec_block, e.packet) /\ OkPkt(e.redec_async, e.packet) /\ OkPkt(e.redec_poll, e.packet)
     /\ \/ Len(e.reenc.bytes) <= e.consumed
        \/ (LenientOverrun(e) /\ AcceptedAsKnown("C11_LENIENT_OVERRUN", e))
+
+\* ---- packets too large to travel as JSON (2^21 .. 2^28 bytes), described by their shape: a QoS-0 PUBLISH with a
+\* topic of topic_len bytes and a payload of payload_len bytes.  The specification computes the sizes and the header;
+\* value / byte equality at that size is computed by the harness (Packet: PartialEq) and reported as booleans.
+BigRl(sh) == 2 + sh.topic_len + sh.payload_len + sh.props_len
+BigEncOK(e) ==
+    LET rl == BigRl(e.shape) IN
+    /\ e.enc.k = "ok" /\ e.enc.len = 1 + Len(EncVarInt(rl)) + rl /\ e.enc.tail_is_payload
+    /\ SubSeq(e.enc.head, 1, 1 + Len(EncVarInt(rl))) = <<48 + (IF e.shape.retain THEN 1 ELSE 0)>> \o EncVarInt(rl)
+BigDecOK(e, withReenc) ==
+    \A i \in 1..Len(e.dec) :
+        LET d == e.dec[i] IN
+        /\ d.res.k = "ok" /\ d.eq
+        /\ (d.front = "poll" => d.total = e.enc.len /\ d.body_ok /\ d.body_len = BigRl(e.shape) /\ d.pos = e.enc.len)
+        /\ (d.front = "async" => d.pos = e.enc.len)
+        /\ (withReenc => d.reenc.k = "ok" /\ d.reenc.same)
 
 \* ---- C12
 NonZeroPids(p) ==
@@ -174,6 +191,7 @@ Accept(e) ==
       [] e.ev = "CodeTable" -> (Prop = "C04" => CodeTableOK(e))
       [] e.ev = "Mal"     -> (Prop = "C20" => OK20(e))
       [] e.ev = "Reenc"   -> (Prop = "C11" => OK11(e))
+      [] e.ev = "BigShape" -> (Prop = "C11" => BigEncOK(e) /\ BigDecOK(e, TRUE))
       [] e.ev = "Decoded" -> (Prop = "C12" => OK12(e))
       [] e.ev = "Cross"   -> (Prop = "C13" => OK13(e))
       [] e.ev = "ProtoTable" -> (Prop = "C13" => OK13Table(e))
